@@ -167,3 +167,16 @@ mutual
 end
 
 end Yaep
+
+namespace Yaep
+mutual
+  /-- rename the attributes (token positions) of the TERM leaves -/
+  def Tree.mapAttr (f : Int → Int) : Tree → Tree
+    | .term c a => .term c (f a)
+    | .anode n c ks => .anode n c (Tree.mapAttrList f ks)
+    | t => t
+  def Tree.mapAttrList (f : Int → Int) : List Tree → List Tree
+    | [] => []
+    | t :: ts => t.mapAttr f :: Tree.mapAttrList f ts
+end
+end Yaep
